@@ -88,6 +88,7 @@ REGISTRY = {
     "c19": "dst.monitors.c19:C19Monitor",
     "c07": "dst.monitors.c07:C07Monitor",
     "c20": "dst.monitors.c20:C20Monitor",
+    "c06": "dst.monitors.c06:C06Monitor",
 }
 
 
